@@ -231,11 +231,20 @@ CHECKS['C11'] = dict(
     text=('Theorems (Usid/Properties/C11.lean): an accepted slice_to_dataset returns the 2-D slice of C07 as data; a side not '
           'named in the dictionary reuses the source\'s ancillaries, a sliced side gets writeIndVal(remaining dimensions, '
           'fastest-first) where the remaining dimensions are those with >= 2 unit values on the selected rows/columns, '
-          'ordered by their number of changes; a placeholder dimension remains when none is left. PARTIAL: the '
-          'coordinate-map equation itself composes C07 (rows_exact), C09 (unit values on sub-grids, not yet proved) and '
-          'C08 (written_slowest_first); it is decided by the oracle on every case: the new dataset is read back with raw '
-          'h5py and compared coordinate by coordinate (physical values of the remaining dimensions) with the source, no '
-          'element missing or duplicated, unsliced side linked to the source\'s datasets, source unchanged. Sources: '
+          'ordered by their number of changes; a placeholder dimension remains when none is left. For a side that is a '
+          'regular grid (any sizes, any storage permutation) and ANY per-dimension selection lists with at least one '
+          'in-range index each: selected_rows_subgrid - the selected rows, in increasing order, are the points of a '
+          'sub-grid with the same rate order; sliced_side_dims - the statement-by-statement model of '
+          '_get_dims_for_slice + order_fast_to_slow returns exactly the dimensions that stay multi-valued, fastest '
+          'first, each with label, unit and the reference values at its selected indices (uses the unit-value theorem '
+          'of C09 on relabelled periodic rows and a change-count ordering argument); sliced_side_coordinates - in the '
+          'ancillaries written from them every remaining dimension has a row with its label and unit whose value at '
+          'column i is the source value of that dimension at the i-th selected row (C08 written_slowest_first + sub-grid '
+          'digits). The data block at (i, j) is main[rows[i], cols[j]] by C07 slice2D_elements. Hypothesis kept '
+          'explicit: every dimension keeps >= 1 in-range index (what expandSel\'s refusals enforce; the arithmetic of '
+          'CPython slices is an executable definition, not re-derived). Oracle on every case: the new dataset is read '
+          'back with raw h5py and compared coordinate by coordinate with the source, no element missing or duplicated, '
+          'unsliced side linked to the source\'s datasets, source unchanged, wrapper in file / sorted / toggled view. Sources: '
           'raw-h5py generator files in any storage order and files written by the library in both conventions.'),
     note=COMMON_NOTE + 'np.argsort(kind=stable) tie order among equally often changing dimensions cannot occur on a sub-grid with >= 2 values per kept dimension.',
     ref='§5 C11')
